@@ -58,7 +58,9 @@ PROP = dict(
                "re-serialization with sorted keys must reproduce the text; standard-mode text is additionally read by strict mode, by an "
                "independent RFC 8259 reader written for the harness and by Python's json module; copies are mutated and destroyed and the "
                "source compared with the model; copy assignment is additionally driven onto generated live targets (pairs of trees), and the "
-               "round trip is repeated after generated malformed texts were parsed on the same thread"),
+               "round trip is repeated after generated malformed texts were parsed on the same thread; strings and keys are also assembled from a "
+               "dictionary of well-known multi-byte sequences (complete enumeration of singles and adjacent pairs), and nesting is driven to "
+               "thousands of levels on a thread with a large stack"),
     level_text=("Exploration: every generated tree is checked under all 64 option masks against an explicit model, so any value shape in "
                 "the generated domain that does not survive serialize->parse, is not standard JSON in standard mode, or shares state with "
                 "its copy is reported with a shrunk replayable tree. It shows the identity on everything explored (about 10^6 tree x mask "
